@@ -2,6 +2,8 @@ import DirectVerif.Model.MaskBudget
 import DirectVerif.Lemmas.C07
 import DirectVerif.Lemmas.C07Equi
 import DirectVerif.Model.C07Magic
+import DirectVerif.Model.C07Bisect
+import DirectVerif.Lemmas.C07Bisect
 import DirectVerif.Lemmas.C07Magic
 /-!
 # C07 — the realised sampling budget matches the requested acceleration
@@ -239,16 +241,18 @@ theorem magic_budget_abs (N L adj off : Nat) (hL : 1 ≤ L) (hLN : L ≤ N) (had
   push_cast [Nat.cast_sub hLN, Nat.cast_sub hadj] at e1 e2
   rw [abs_le]
   constructor
-  · rw [le_sub_iff_add_le, ← sub_le_iff_le_add']
-    have : ((L : ℚ) + ((N : ℚ) - L) / adj) - (2 + 2 / (adj : ℚ)) = ((adj : ℚ) * L + (N - L) - 2 * (adj + 1)) / adj := by
+  · rw [neg_le_sub_iff_le_add, ← sub_nonneg]
+    have : (magicCount N L adj off : ℚ) + (2 + 2 / (adj : ℚ)) - ((L : ℚ) + ((N : ℚ) - L) / adj) =
+        ((adj : ℚ) * magicCount N L adj off + 2 * (adj + 1) - (adj * L + (N - L))) / adj := by
+      field_simp
+    rw [this]
+    exact div_nonneg (by linarith) ha.le
+  · rw [sub_le_iff_le_add, ← sub_nonneg]
+    have : (2 + 2 / (adj : ℚ)) + ((L : ℚ) + ((N : ℚ) - L) / adj) - (magicCount N L adj off : ℚ) =
+        ((adj : ℚ) * L + (N - L) + 2 * (adj - 1) - adj * magicCount N L adj off + 4) / adj := by
       field_simp; ring
-    rw [sub_le_iff_le_add', this, div_le_iff₀ ha]
-    nlinarith
-  · rw [sub_le_iff_le_add']
-    have : ((L : ℚ) + ((N : ℚ) - L) / adj) + (2 + 2 / (adj : ℚ)) = ((adj : ℚ) * L + (N - L) + 2 * (adj + 1)) / adj := by
-      field_simp; ring
-    rw [this, le_div_iff₀ ha]
-    nlinarith
+    rw [this]
+    exact div_nonneg (by linarith) ha.le
 
 /-- a call whose ACS block uses up the budget (`adjusted_acceleration = 0`) raises in `rng.randint(0, high=0)` -/
 theorem magic_frame_rejects (N lRaw : Int) (R : ℚ) (off : Int) (h : (magicParams N lRaw R).2.2 ≤ 0) :
@@ -261,7 +265,7 @@ theorem magic_frame_rejects (N lRaw : Int) (R : ℚ) (off : Int) (h : (magicPara
 theorem magic_frame_count (N lRaw : Int) (R : ℚ) (off : Int) (m : List Bool) (hN : 1 ≤ N)
     (hcap : (magicParams N lRaw R).2.1 ≤ N) (h : magicFrame N lRaw R off = .ok m) :
     countTrue m = magicCountFormula N.toNat (magicParams N lRaw R).2.1.toNat (magicParams N lRaw R).2.2.toNat off.toNat := by
-  unfold magicFrame at h
+  dsimp only [magicFrame] at h
   split_ifs at h with hadj
   simp only [Except.ok.injEq] at h
   subst h
@@ -277,7 +281,7 @@ theorem magic_target_le (N : Int) (R : ℚ) (hN : 0 ≤ N) (hR : 1 ≤ R) : magi
     exact div_le_self this hR
   have h1 := rnd_floor_or ((N : ℚ) / R)
   have hfl : ((N : ℚ) / R).floor ≤ N := by
-    rw [floor_eq]; exact Int.floor_le_iff.mpr (by push_cast; linarith)
+    rw [floor_eq]; exact Int.floor_le_iff.mpr (by linarith)
   rcases h1 with h | h
   · rw [h]; exact hfl
   · -- rounding up happens only when the fractional part is ≥ 1/2, impossible at floor = N
@@ -290,13 +294,13 @@ theorem magic_target_le (N : Int) (R : ℚ) (hN : 0 ≤ N) (hR : 1 ≤ R) : magi
     split_ifs at h with a b c <;> first | omega | linarith
 
 /-- **Magic deviates from `N / R` by design** (not a defect; inherited from fastMRI): 400 columns, `R = 4`, 32 ACS
-columns → target 100, `adjusted_acceleration = round(400 / 68) = 6`, and offset 0 realises 94 columns, 6 short -/
+columns → target 100, `adjusted_acceleration = round(400 / 68) = 6`, and offset 0 realises 93 columns, 7 short -/
 theorem magic_deviates_by_design :
     magicParams 400 32 4 = (100, 32, 6) ∧ magicFrame 400 32 4 0 = .ok (magicMask 400 32 6 0) ∧
-    magicCount 400 32 6 0 = 94 := by
+    magicCount 400 32 6 0 = 93 := by
   refine ⟨by decide +kernel, by decide +kernel, by decide +kernel⟩
 
-example : magicCountFormula 400 32 6 0 = 94 := by decide +kernel
+example : magicCountFormula 400 32 6 0 = 93 := by decide +kernel
 /-- hypotheses of `magic_budget_bounds` are satisfiable, and the bracket is tight on the upper side:
 `N = 12`, `L = 2`, `adj = 5`, offset 0 → comb points 6+1 → column 7 and 6−1−2 → column 3: count 4, `5·4 = 5·2 + 10` -/
 example : magicCount 12 2 5 0 = 4 := by decide +kernel
@@ -398,6 +402,7 @@ theorem bisection_fraction_bounds (cells count R tol : ℚ) (hc : 0 < count) (ht
 
 example : bisect 4 (1 / 10) [⟨5, false⟩, ⟨3, false⟩, ⟨81 / 20, false⟩] 0 = .returned (81 / 20) 3 := by decide +kernel
 example : bisect 4 (1 / 10) [⟨5, false⟩, ⟨3, true⟩] 0 = .raised 2 := by decide +kernel
+
 
 /-! ### Equispaced line masks -/
 
